@@ -198,7 +198,7 @@ class NormalDist(Distribution):
         """
         dev = (y - mu) ** 2
         if scaled:
-            dev /= self.scale
+            dev = dev / self.scale
         return dev
 
     def sample(self, mu):
@@ -311,7 +311,7 @@ class BinomialDist(Distribution):
         """
         dev = 2 * (ylogydu(y, mu) + ylogydu(self.levels - y, self.levels - mu))
         if scaled:
-            dev /= self.scale
+            dev = dev / self.scale
         return dev
 
     def sample(self, mu):
@@ -425,7 +425,7 @@ class PoissonDist(Distribution):
         dev = 2 * (ylogydu(y, mu) - (y - mu))
 
         if scaled:
-            dev /= self.scale
+            dev = dev / self.scale
         return dev
 
     def sample(self, mu):
@@ -530,7 +530,7 @@ class GammaDist(Distribution):
         dev = 2 * ((y - mu) / mu - np.log(y / mu))
 
         if scaled:
-            dev /= self.scale
+            dev = dev / self.scale
         return dev
 
     def sample(self, mu):
@@ -642,7 +642,7 @@ class InvGaussDist(Distribution):
         dev = ((y - mu) ** 2) / (mu**2 * y)
 
         if scaled:
-            dev /= self.scale
+            dev = dev / self.scale
         return dev
 
     def sample(self, mu):
